@@ -142,7 +142,9 @@ def run_conditions(chk, conds, workers=None):
             elif verdict == "refuted":
                 val, out = native_replay(c.module, detail["func"], detail["args"], c.env)
                 is_exc = not detail["message"].strip().lower().startswith("false")
-                reproduced = (val == "EXC") if is_exc else (val == "False")
+                # the native run decides: the harness function returning False on these inputs is a violation of the
+                # property on the real code, whatever CrossHair's own message was
+                reproduced = (val == "False") or (is_exc and val == "EXC")
                 rp = dict(reproduced=reproduced, inputs=dict(call=f"{detail['func']}({detail['args']})"), observed=dict(native_result=val),
                           note=(detail["message"] + " | " + out.strip()[-300:]) if reproduced else "counterexample did not reproduce natively: " + out[-200:])
                 r = Result(ob, "sat", secs, info, replay=rp)
